@@ -14,7 +14,8 @@ Definition run (prop : list N) (case obs : sx) : sx :=
   else if bytes_eqb prop (sym_of_string "C16") then run_C16 case obs
   else if bytes_eqb prop (sym_of_string "C10") then run_frag case obs
   else if bytes_eqb prop (sym_of_string "C09") then run_C09 case obs
-  else if bytes_eqb prop (sym_of_string "C01") then run_C01 case obs
+  else if bytes_eqb prop (sym_of_string "C01") then
+    match case with SL (t :: _) => if is_sym "recv" t then run_frag case obs else run_C01 case obs | _ => bad_case end
   else if bytes_eqb prop (sym_of_string "C08") then run_C08 case obs
   else if bytes_eqb prop (sym_of_string "C05") then run_C05 case obs
   else if bytes_eqb prop (sym_of_string "C07") then run_C07 case obs
